@@ -16,6 +16,7 @@ def dispatch (line : String) : String :=
   | "conc" :: rest => ConcDriver.handle (" ".intercalate rest)
   | "sched" :: rest => SchedDriver.handle (" ".intercalate rest)
   | "blk" :: rest => BlockDriver.handle (" ".intercalate rest) BlockDriver.registry
+  | "repeat" :: rest => BlockDriver.handleRepeat (" ".intercalate rest)
   | "wait" :: rest => WaitDriver.handle (" ".intercalate rest)
   | _ => "bad-model"
 
